@@ -52,7 +52,7 @@ PROFILES = {
                 n_ops=(2, 5, 10, 20, 40), p_maintainer=0.8, fail_down_bias=0.3),
     'c14': dict(p_fanin=0.9, n_sources=(2, 2, 3), n_ops=(0, 2, 5, 10), p_rq=0.6, p_split=0.0, p_trace=0.0,
                 fault_kinds=('fail', 'shutdown', 'restore', 'wo', 'addres', 'block', 'adjust', 'offset', 'ct', 'wake')),
-    'c15': dict(p_trace=0.3, p_maintainer=0.7, p_split=0.5, p_empty_batch=0.25, p_batch_source=0.35),
+    'c15': dict(p_trace=0.3, p_maintainer=0.7, p_split=0.5, p_empty_batch=0.25, p_batch_source=0.35, p_sched=0.4),
     'c16': dict(p_maintainer=0.8, p_batch_source=0.4, p_nested_batch=0.3,
                 fault_kinds=('fail', 'shutdown', 'restore', 'wo', 'addres', 'block', 'adjust', 'rewire', 'offset', 'ct', 'wake',
                              'trywork', 'mkasset', 'mkasset')),
@@ -345,6 +345,15 @@ def _gen_spec(rng, profile_name, P):
         plan = [horizon]
     spec['plan'] = plan
     spec['ops'] = gen_ops(rng, spec, P, horizon)
+    if P.get('p_sched') and rng.random() < P['p_sched']:
+        # action schedulers (shift plans) with a harness object registered: their state changes are recorded too
+        scheds = []
+        for _ in range(rng.choice((1, 1, 2))):
+            tt = [[rng.choice((0.25, 0.5, 1, 2, 2, 3, 0)), rng.choice(('on', 'off', 'on', 'x'))] for _ in range(rng.choice((1, 2, 2, 3, 4)))]
+            if sum(x[0] for x in tt) == 0:
+                tt[0][0] = 1
+            scheds.append({'tt': tt, 'cyc': rng.random() < 0.7})
+        spec['schedulers'] = scheds
     if 'offset' in P['fault_kinds'] and rng.random() < 0.2:
         # one-shot offsets requested after construction but before the first simulate() call
         timed = [d['n'] for d in devices if d['k'] in ('handler', 'proc', 'source', 'sink')]
